@@ -148,6 +148,9 @@ def program_set(tier, seed, loop_else=False, globfns=True):
     if globfns:     # module-level functions called (and converted recursively, or run unconverted) from the function under test
         progs += mprun.random_programs(150 if quick else 1500, seed + 19, lo=2, hi=4, maxdepth=3, loop_else=loop_else, globfns=2,
                                        call_rate=0.3)
+    # list state in and around try / loop / branch bodies (replayed under the LISTS feature as well)
+    progs += mprun.random_programs(200 if quick else 1500, seed + 23, lo=2, hi=4, maxdepth=3, loop_else=loop_else, list_rate=1.0,
+                                   list_stmt_rate=0.3, calls=False, with_=False, dele=False, hnames=False)
     # the pure profile (ints, arithmetic, augmented and tuple assignment, counted loops, closures, attribute state): every
     # input tuple over 0..IntMax is explored
     progs += [mp.gen_pure(seed * 100003 + 70000 + i, maxdepth=3) for i in range(80 if quick else 800)]
